@@ -44,19 +44,20 @@ Theorem C02_segmented_receipts :
   Forall2 agrees (spec_outs log k (fun _ => PNot) None gs) (hrun_each hinit (map (conc r log k sq md uid) gs)).
 Proof. exact segmented_receipts. Qed.
 
-(* ANY NUMBER n of segmented messages outstanding at the same time (distinct references, sequence numbers and SMSC message ids; each
-   accepted in full, any number >= 2 of segments), ANY interleaving of their puts, accepting responses and receipts: at the events of
-   message j the hook gets exactly what it would get if message j were alone - placeholders, then one receipt event with j's identity
-   at the receipt that completes it. The other messages' receipts cannot complete, duplicate or suppress it *)
+(* ANY NUMBER n of segmented messages outstanding at the same time (distinct sequence numbers and SMSC message ids; ANY segmentation
+   references, also equal ones - the 8-bit reference is re-used while older messages still wait for receipts; each accepted in full,
+   any number >= 2 of segments), ANY interleaving of their puts, accepting responses and receipts in which the segments of two messages
+   with the same reference are not stored interleaved: at the events of message j the hook gets exactly what it would get if message j
+   were alone - placeholders, then one receipt event with j's identity at the receipt that completes it. The other messages' receipts
+   cannot complete, duplicate or suppress it *)
 Theorem C02_concurrent_receipts :
   forall (n : nat) (D : nat -> mdesc2),
   (forall j, (j < n)%nat ->
-     (2 <= m2_k (D j))%nat
+     (2 <= m2_k (D j))%nat /\ 0 <= m2_r (D j) < 65536
      /\ (forall a b, (a < m2_k (D j))%nat -> (b < m2_k (D j))%nat -> m2_sq (D j) a = m2_sq (D j) b -> a = b)
      /\ (forall a b, (a < m2_k (D j))%nat -> (b < m2_k (D j))%nat -> m2_md (D j) a = m2_md (D j) b -> a = b)) ->
   (forall i j, (i < n)%nat -> (j < n)%nat -> i <> j ->
-     m2_r (D i) <> m2_r (D j)
-     /\ (forall a b, (a < m2_k (D i))%nat -> (b < m2_k (D j))%nat -> m2_sq (D i) a <> m2_sq (D j) b)
+     (forall a b, (a < m2_k (D i))%nat -> (b < m2_k (D j))%nat -> m2_sq (D i) a <> m2_sq (D j) b)
      /\ (forall a b, (a < m2_k (D i))%nat -> (b < m2_k (D j))%nat -> m2_md (D i) a <> m2_md (D j) b)) ->
   forall (gs : list gev2) (j : nat),
   gvalid2 n D (fun _ _ => PNot) (fun _ => None) gs -> (j < n)%nat ->
@@ -65,20 +66,24 @@ Theorem C02_concurrent_receipts :
                     (pick2 j gs (hrun_each hinit (map (gconc2 D) gs))).
 Proof. exact concurrent_receipts. Qed.
 
-(* non-vacuity: two messages of two segments, receipts interleaved; each gets its one receipt event at its own last receipt *)
+(* non-vacuity: two messages of two segments UNDER THE SAME REFERENCE 5, receipts interleaved; each gets its one receipt event at its own
+   last receipt *)
 Example C02_concurrent_nonvacuous :
   let D := fun j => match j with
                     | O => {| m2_r := 5; m2_log := 7; m2_k := 2; m2_sq := fun i => 101 + Z.of_nat i; m2_md := fun i => 501 + Z.of_nat i; m2_uid := fun i => 10 + Z.of_nat i |}
-                    | _ => {| m2_r := 6; m2_log := 8; m2_k := 2; m2_sq := fun i => 201 + Z.of_nat i; m2_md := fun i => 601 + Z.of_nat i; m2_uid := fun i => 20 + Z.of_nat i |}
+                    | _ => {| m2_r := 5; m2_log := 8; m2_k := 2; m2_sq := fun i => 201 + Z.of_nat i; m2_md := fun i => 601 + Z.of_nat i; m2_uid := fun i => 20 + Z.of_nat i |}
                     end in
-  let gs := [(0%nat, GPut 0); (1%nat, GPut 0); (0%nat, GPut 1); (1%nat, GPut 1); (0%nat, GResp 0 31); (1%nat, GResp 0 41); (1%nat, GResp 1 42);
+  let gs := [(0%nat, GPut 0); (0%nat, GPut 1); (1%nat, GPut 0); (1%nat, GPut 1); (0%nat, GResp 0 31); (1%nat, GResp 0 41); (1%nat, GResp 1 42);
              (0%nat, GResp 1 32); (1%nat, GRcpt 1 52 0); (0%nat, GRcpt 0 61 0); (1%nat, GRcpt 0 51 9); (0%nat, GRcpt 1 62 0)] in
   gvalid2 2 D (fun _ _ => PNot) (fun _ => None) gs
   /\ concat (skipn 8 (hrun_each hinit (map (gconc2 D) gs))) = [HRaw; HRaw; HReceipt 51 8; HReceipt 61 7].
 Proof.
   cbn zeta. split.
-  - cbn. unfold ConcurrentProofs.upd, upd. cbn. try (assert (STATUS_SENT = 65532) as -> by reflexivity).
-    repeat split; try lia; try reflexivity; try discriminate; try (cbn; lia); try (cbn; discriminate); intros; discriminate.
+  - cbn. unfold ConcurrentProofs.upd, upd, storing2. cbn. try (assert (STATUS_SENT = 65532) as -> by reflexivity).
+    repeat split; try lia; try reflexivity; try discriminate; try (cbn; lia); try (cbn; discriminate);
+      try (cbn [snd fst]; intros i Hi Hne _ [H0 (a & Ha & Hq)]; destruct i as [|[|i]]; try lia; try congruence; cbn in H0, Ha, Hq;
+           destruct a as [|[|a]]; cbn in Hq; try discriminate; try lia; apply H0; reflexivity);
+      intros; discriminate.
   - vm_compute. reflexivity.
 Qed.
 
